@@ -351,6 +351,7 @@ class AstInterpreter(InterpreterBase):
                 args: mparser.ArgumentNode,
                 key_resolver: T.Callable[[mparser.BaseNode], str] = default_resolve_key,
                 duplicate_key_error: T.Optional[str] = None,
+                expand_kwargs: bool = True,
             ) -> T.Tuple[T.List[T.Any], T.Any]:
         for arg in args.arguments:
             self.evaluate_statement(arg)
